@@ -1,6 +1,6 @@
 (* C16 -- proofs about Model/SpillPool.v at CALL granularity: every statement quantifies over all interleavings of
    push_batch / drop / poll_next calls (each call atomic), any number of writers, any schedule length. *)
-From DF Require Import Base.Prelude Model.SpillPool.
+From DF Require Import Base.Prelude Model.SpillPool Model.SpillPoolFine.
 From Coq Require Import Lia PeanoNat Permutation.
 Open Scope Z_scope.
 
@@ -945,7 +945,8 @@ Section Theorems.
 
   Lemma forallb_nth (l : list file) : (forall i, (i < length l)%nat -> nth i (map f_finished l) true = true) -> forallb f_finished l = true.
   Proof.
-    induction l; intro Hn; cbn; auto. rewrite (Hn 0%nat) by (cbn; lia). cbn.
+    induction l; intro Hn; cbn; auto.
+    assert (Ha : f_finished a = true) by (apply (Hn 0%nat); cbn; lia). rewrite Ha. cbn.
     apply IHl. intros i Hi. apply (Hn (S i)). cbn; lia.
   Qed.
 
@@ -998,3 +999,47 @@ Lemma repaired_same_history :
   exists p outs, run true (2 ^ 40) (init 1) (hang_ops ++ [Poll false]) = Some (p, outs) /\
     outs = [OPush true 0; OPush false 0; OPush true 0; ODrop 0; OPoll (PBatch 1); OPoll (PBatch 3); OPoll PEof].
 Proof. eexists _, _. split; vm_compute; reflexivity. Qed.
+
+Lemma durable_attempted ops b : In b (durable ops) -> In b (attempted ops).
+Proof.
+  unfold durable, attempted. rewrite !in_flat_map. intros (o & Ho & Hb). exists o. split; auto.
+  destruct o; auto. destruct (rows =? 0); cbn [orb] in *; auto. destruct (is_fail_append flt); auto. destruct Hb.
+Qed.
+
+(* the statements of Props/C16.v *)
+Lemma spsc_fifo_calls thr ops p outs :
+  run true thr (init 1) ops = Some (p, outs) ->
+  yielded p ++ remaining p = durable ops /\
+  (forall io p', do_poll io p = (PEof, p') -> yielded p' = durable ops /\ wcount p = 0%nat /\ count_drops ops = 1%nat).
+Proof.
+  intro H. split; [eapply fifo_calls; eauto|]. intros io p' E.
+  destruct (eof_only_after_all _ _ _ _ _ H io p' E) as (A & B & C & _). auto.
+Qed.
+
+Lemma mpsc_multiset_calls nw thr ops p outs :
+  run true thr (init nw) ops = Some (p, outs) ->
+  (forall b, (count_occ Z.eq_dec (yielded p) b <= count_occ Z.eq_dec (durable ops) b)%nat) /\
+  (forall io p', do_poll io p = (PEof, p') -> Permutation (yielded p') (durable ops)).
+Proof.
+  intro H. split; [intro b; eapply multiset_calls; eauto|]. intros io p' E.
+  destruct (eof_only_after_all _ _ _ _ _ H io p' E) as (_ & _ & C & _). rewrite C. apply Permutation_refl.
+Qed.
+
+Lemma ok_push_is_durable nw thr ops p outs :
+  run true thr (init nw) ops = Some (p, outs) ->
+  forall b, In b (ok_pushes ops outs) -> In b (durable ops) /\ In b (attempted ops).
+Proof.
+  intros H b Hb. assert (In b (durable ops)) by (eapply ok_pushes_durable; eauto; apply init_inv).
+  split; auto. apply durable_attempted; auto.
+Qed.
+
+(* ------------------------------------------------------------------ fine-grained model: a witness, not a theorem about all schedules *)
+(* mpsc_channel documents no ordering guarantee; indeed, once pushes of two writers overlap, even the order of ONE
+   writer's batches is not preserved: writer 0 pushes 1 then 2, writer 1 pushes 3; batch 2 is delivered before batch 1 *)
+Definition order_progs : list (list wop) :=
+  [[WPush 1 3 128 NoFault; WPush 2 3 128 NoFault; WDrop]; [WPush 3 3 128 NoFault; WDrop]].
+Definition order_sched : list nat := ([2; 2; 1; 1; 2; 2; 1; 1; 1; 1; 1; 1; 2; 2; 2; 2] ++ repeat 0 21)%nat.
+Lemma mpsc_order_witness :
+  exists sched, let st := frun true (2 ^ 40) sched (finit order_progs) in
+    got_eof st = true /\ yielded (fpool st) = [3; 2; 1] /\ enabled st = [].
+Proof. exists order_sched. vm_compute. repeat split; reflexivity. Qed.
